@@ -56,8 +56,8 @@ fn check_eval(spec: &TlSpec, rt: &RefTl, tl: &PTimeline, start: Option<&P>, t: f
     let q = ph.pos();
     let mut res: Result<(), String> = Ok(());
     // exact where the position coincides with a (single) keyframe of the property, loose elsewhere
-    let props: [(&str, &RefProp, f64, RV, bool); 2] =
-        [("a", &rt.a, got.a as f64, want.a, false), ("k", &rt.k, got.k as f64, want.k, true)];
+    let props: [(&str, &RefProp, f64, RV, bool); 3] =
+        [("a", &rt.a, got.a as f64, want.a, false), ("k", &rt.k, got.k as f64, want.k, true), ("d", &rt.d, got.d, want.d, false)];
     for (name, rp, g, w, int) in props {
         if res.is_err() {
             break;
@@ -96,7 +96,7 @@ fn check_eval(spec: &TlSpec, rt: &RefTl, tl: &PTimeline, start: Option<&P>, t: f
 }
 
 pub fn run(run: Run) -> ! {
-    let nmax = if run.is_thorough() { 5 } else { 3 };
+    let nmax = if run.is_thorough() { 5 } else { 4 };
     let thetas = theta_plus();
     let grids: Vec<(Vec<f32>, Vec<f32>)> = thetas.iter().map(exact_times).collect();
     let init = P::sentinel();
@@ -107,7 +107,12 @@ pub fn run(run: Run) -> ! {
         &[0u8, 3u8],
         true,
         Acc::default,
-        |acc, n, idx, de, kfs, rank| {
+        |acc, n, idx, de, kfs0, rank| {
+          for variant in 0..2 {
+            if variant == 1 && (n == nmax || !kfs0.iter().any(|k| k.a.is_some())) {
+                continue;
+            }
+            let kfs = &if variant == 1 { remap_a_to_d(kfs0) } else { kfs0.clone() };
             for (ti, th) in thetas.iter().enumerate() {
                 let spec = TlSpec { kfs: kfs.clone(), default_easing: de, timing: *th };
                 let rt = RefTl::new(&spec);
@@ -147,6 +152,7 @@ pub fn run(run: Run) -> ! {
                     acc.samples.push(c);
                 }
             }
+          }
         },
         |a, b| {
             a.sink.merge(b.sink);
@@ -166,7 +172,7 @@ pub fn run(run: Run) -> ! {
     cov.insert("traces_validated_against_impl".into(), json!(acc.evals));
     cov.insert("evaluations".into(), json!(acc.evals));
     cov.insert("distinct_nontrivial".into(), json!(acc.exact_checks));
-    cov.insert("rule".into(), json!(format!("keyframe lists of size 0..={nmax} with per-property distinct positions (same alphabet as C01) x 13 dyadic timing configurations (incl. Times 0/1/2/3, Infinite, reverse) x {{no start, start_with(v*)}} x exact-hit times delay+cycle*(c+p) / reversing delay+cycle*(c+p/2), delay+cycle*(c+1-p/2) for all grid positions p and cycles c<=3, t in {{0,delay/2,delay}}, every forward-pass end, and 6 after-end times (next f32 after total .. f32::MAX); non-trivial = (evaluation, property) whose position coincides with exactly one keyframe of that property, compared exactly (int) / within 4 ulp (float)")));
+    cov.insert("rule".into(), json!(format!("keyframe lists of size 0..={nmax} with per-property distinct positions (same alphabet as C01, incl. the variant with the f64 property d in place of a below the largest size) x 13 dyadic timing configurations (incl. Times 0/1/2/3, Infinite, reverse) x {{no start, start_with(v*)}} x exact-hit times delay+cycle*(c+p) / reversing delay+cycle*(c+p/2), delay+cycle*(c+1-p/2) for all grid positions p and cycles c<=3, t in {{0,delay/2,delay}}, every forward-pass end, and 6 after-end times (next f32 after total .. f32::MAX); non-trivial = (evaluation, property) whose position coincides with exactly one keyframe of that property, compared exactly (int) / within 4 ulp (float)")));
     cov.insert("exhaustive".into(), json!(true));
     cov.insert("max_keyframes".into(), json!(nmax));
     cov.insert("after_end_constancy_groups".into(), json!(acc.after_end_groups));
